@@ -26,6 +26,11 @@ def gen_cases(tier, seed):
                                         -256, -255, 256 + 221, 2**24, 2**31 - 256, -2**31 + 221]
     vals += [rng.randrange(INT_MIN, INT_MAX + 1) for _ in range(2000)]
     vals += [(rng.randrange(-2**23, 2**23) << 8) | rng.randrange(256) for _ in range(2000)]   # low octet = a tag number
+    # order matters only if the lookup keeps state between calls: every number 0..255 asked right AFTER a number with the same
+    # low octet outside 0..255, and right after its neighbours (a lookup must not remember the previous question)
+    for k in range(256):
+        for other in (k + 256, k - 256, k + (1 << 20), (k + 1) & 255, k ^ 0x80):
+            vals += [other, k]
     for v in vals:
         cases.append("tagname %d" % v)
     if tier == "thorough":
